@@ -233,6 +233,46 @@ def edge_forms():
             return "form", f * ufl.inner(u, v) * ufl.ds(domain=m) + g * ufl.inner(u, v) * ufl.ds(1, domain=m) + f * g * u * v * ufl.dx(domain=m)
         mk(f"facet-integrals-with-coefficients@{cell}", facet_coeff)
 
+    for cell in ("triangle", "quadrilateral", "tetrahedron"):
+        d = oracle.TDIM[cell]
+
+        def custom_rules(cell=cell, d=d, variant="weights"):
+            # user-supplied rules: same points / other weights, same weights / other points, the points of a built-in rule with other weights
+            m = ufl.Mesh(el("P", cell, 1, shape=(d,)))
+            V = ufl.FunctionSpace(m, el("P", cell, 1))
+            f, v = ufl.Coefficient(V), ufl.TestFunction(V)
+            p, w = basix.make_quadrature(oracle.celltype(cell), 2)
+            p, w = np.ascontiguousarray(p), np.asarray(w)
+            a = {"quadrature_rule": "custom", "quadrature_points": p, "quadrature_weights": w * 1.25}
+            if variant == "weights":
+                b = {"quadrature_rule": "custom", "quadrature_points": p.copy(), "quadrature_weights": w[::-1] * 0.5}
+            elif variant == "points":
+                b = {"quadrature_rule": "custom", "quadrature_points": p * 0.9 + 0.01, "quadrature_weights": w * 1.25}
+            else:
+                b = {"quadrature_degree": 2}
+            return "form", ufl.exp(f) * v * ufl.dx(domain=m, metadata=a) + ufl.sin(f) * v * ufl.dx(domain=m, metadata=b)
+        for variant in ("weights", "points", "builtin"):
+            mk(f"custom-rules-same-{variant}@{cell}", lambda c=cell, dd=d, vv=variant: custom_rules(c, dd, vv))
+
+    for cell in ("triangle", "tetrahedron", "hexahedron"):
+        d = oracle.TDIM[cell]
+
+        def facet_scheme_sequences(cell=cell, d=d, variant="vertex+vertex"):
+            # several integrals of ONE facet group whose rule is set per integral (vertex scheme twice with different metadata; a user rule after a built-in one)
+            m = ufl.Mesh(el("P", cell, 1, shape=(d,)))
+            V = ufl.FunctionSpace(m, el("P", cell, 1))
+            f, v = ufl.Coefficient(V), ufl.TestFunction(V)
+            vmd = {"quadrature_rule": "vertex", "quadrature_degree": 1}
+            ent = oracle.entity_cellname(cell, d - 1, 0)
+            p, w = basix.make_quadrature(oracle.celltype(ent), 3)
+            cmd = {"quadrature_rule": "custom", "quadrature_points": np.ascontiguousarray(p), "quadrature_weights": np.asarray(w)}
+            first, second = {"vertex+vertex": (vmd, {"quadrature_rule": "vertex", "quadrature_degree": 2}), "default+custom": ({"quadrature_degree": 2}, cmd),
+                             "custom+vertex": (cmd, vmd)}[variant]
+            M = ufl.ds
+            return "form", ufl.exp(f) * v * M(domain=m, metadata=first) + ufl.sin(f) * v * M(domain=m, metadata=second)
+        for variant in ("vertex+vertex", "default+custom", "custom+vertex"):
+            mk(f"facet-rules-{variant}@{cell}", lambda c=cell, dd=d, vv=variant: facet_scheme_sequences(c, dd, vv))
+
     def pow_literal_base(scalar):
         def f():
             m = ufl.Mesh(el("P", "triangle", 1, shape=(2,)))
